@@ -4,6 +4,7 @@ package main
 
 import (
 	"sort"
+	"strings"
 
 	"github.com/google/safehtml/template"
 )
@@ -23,6 +24,16 @@ func init() {
 		o1, s1 := apply(v)
 		o2, s2 := apply(stringOf(v))
 		c.Case("c03_cell", hx(in[0]), hx(in[1]), o1, hx(s1), o2, hx(s2))
+	})
+	// link_exec: <rel value as written> <value wire>:  <link rel="R" href="{{.}}">  executed; the driver
+	// decides from the REVIEWED policy (never the engine's tables) whether this rel lets anything but a
+	// TrustedResourceURL through: a URL-typed or untyped value emitted where only a TrustedResourceURL
+	// is covered is a safe value (or a string) used outside the context of its type
+	reg("link_exec", 2, func(c *caseWriter, in []string) {
+		text := `<link rel="` + in[0] + `" href="{{.}}">`
+		r := runTemplate(text, "", valueFromWire(in[1]), false)
+		norm := " " + strings.Join(strings.Fields(strings.TrimSpace(strings.ToLower(in[0]))), " ") + " "
+		c.Case("link_exec", hx(in[0]), hx(norm), hx(in[1]), r.outcome, hx(r.out))
 	})
 	// attr_exec: <element> <attribute> <quote dq|sq> <static prefix inside the value> <value wire>
 	reg("attr_exec", 5, func(c *caseWriter, in []string) {
@@ -99,5 +110,15 @@ func runC03(c *caseWriter) (string, bool, map[string]int) {
 			emit(c, "attr_exec", "a", "data-x", "dq", "", w)
 		}
 	}
-	return "every function of the funcs map x 33 hostile contents x {string, *string, Stringer, error, 7 safe types at pointer depth 0..2}: result for the value and for the plain string with the same contents; two (element, attribute) pairs of every sanitization-context class (all pairs in the thorough tier) x both quoting styles x the same values through real templates, plus static URL prefixes; the executed output is re-tokenized by the HTML tokenizer specification; non-trivial = the value was accepted", false, nil
+	// link rel: allow-listed values, style-sheet and module rels, values that merely CONTAIN an
+	// allow-listed word, case and white-space variants
+	for _, rel := range []string{"icon", "alternate", "next", "preload", "stylesheet", "alternate stylesheet", "stylesheet icon", "modulepreload", "apple-touch-icon", "mask-icon", "shortcut icon",
+		"xicon", "iconx", "prefetchx", "x-next", "import", "manifest", "pingback", "ICON", "Alternate  StyleSheet", "icon\tstylesheet", "dns-prefetch", "preconnect", "prerenderx", "author-x", "", "x"} {
+		for _, s := range []string{"https://a.example/w.css", "/t.js", "javascript:alert(1)", "x"} {
+			for _, w := range []string{"str:" + hx(s), "safe:url:" + hx(s), "ptr:safe:url:" + hx(s), "safe:tru:" + hx(s), "safe:html:" + hx(s), "stringer:" + hx(s)} {
+				emit(c, "link_exec", rel, w)
+			}
+		}
+	}
+	return "link_exec: 27 rel values (allow-listed, style sheet / module rels, values that contain an allow-listed word, case and white space) x 4 contents x {string, URL, *URL, TrustedResourceURL, HTML, Stringer} through <link rel=R href={{.}}>, judged against the reviewed policy; every function of the funcs map x 33 hostile contents x {string, *string, Stringer, error, 7 safe types at pointer depth 0..2}: result for the value and for the plain string with the same contents; two (element, attribute) pairs of every sanitization-context class (all pairs in the thorough tier) x both quoting styles x the same values through real templates, plus static URL prefixes; the executed output is re-tokenized by the HTML tokenizer specification; non-trivial = the value was accepted", false, nil
 }
